@@ -126,7 +126,9 @@ class Gen:
                          "1;0;1;0;23", "a;0;1;0;23;5", "1;0;1;0;23;5;", "ÿþ", "1; ;1;0;23;5", " ", "1;0;1;0;2_3x;5"])
 
 
-HARSH_VALUES = ["a;b", "line\nbreak", "", " ", "x" * 300, "\U0001f600;", ";", "1;0;1;0;2;1", None, 3.5, True, b"b", ["l"],
+# (the Python object None is not among the values: for a smart-sleep node the library reads it as "nothing desired", which is
+# its own representation of that, while the properties speak about values / text)
+HARSH_VALUES = ["a;b", "line\nbreak", "", " ", "x" * 300, "\U0001f600;", ";", "1;0;1;0;2;1", "None", 3.5, True, b"b", ["l"],
                 "tr ", "\r"]
 
 
